@@ -44,9 +44,13 @@ class StringNode(BaseNode, SelectNode):
         if self.value_fn: # Process function
             with FunctionSolver(env) as s:
                 self.value_raw = s.solve(self.value_fn)
+            if isinstance(self.value_raw, str) and self.value_raw=='':
+                self.value_fn = None    # evaluated: the empty text is the value ('' with a function means "not evaluated")
         if self.value_expr: # Process function
             with TemplateSolver(env, source=self.source) as s:
                 self.value_raw = s.solve(self.value_expr)
+            if self.value_raw=='':
+                self.value_expr = None  # evaluated: the empty text is the value
         if self.units_raw:
             raise Exception('String datatype does not support units:', self.code)
         return None    
